@@ -166,6 +166,7 @@ type scriptedRequestor struct {
 	active    int
 	maxActive int
 	okReturns int // handlers that returned nil
+	cancellers []*spyCanceller
 	ctx       context.Context
 	wg        sync.WaitGroup
 }
@@ -183,6 +184,7 @@ func (r *scriptedRequestor) RequestBlock(ctx context.Context, hash bitcoin.Hash3
 	}
 	started := false
 	can := &spyCanceller{id: uuid.New(), started: func() bool { return started }}
+	r.cancellers = append(r.cancellers, can)
 	if behaviour == 2 {
 		return can, nil
 	}
@@ -228,11 +230,20 @@ func VerifC16Manager() {
 	btm := &spyBlockTxManager{p: spy}
 	req := &scriptedRequestor{header: header, txs: txs, ctx: ctx}
 	nscript := verifParam("scripted", 2)
+	silent := verifParam("silentpeers", 0) == 1 // every peer accepts the request and never answers
 	for k := 0; k < nscript; k++ {
-		req.script = append(req.script, pick("behaviour", 4))
+		if silent {
+			req.script = append(req.script, 2)
+		} else {
+			req.script = append(req.script, pick("behaviour", 4))
+		}
 	}
-	concurrent := 1 + pick("concurrent", 2)
-	bm := NewBlockManager(btm, req, concurrent, 5*time.Second)
+	concurrent := verifParam("concurrentmin", 1) + pick("concurrent", 2)
+	delay := 5 * time.Second
+	if silent {
+		delay = 5 * time.Millisecond
+	}
+	bm := NewBlockManager(btm, req, concurrent, delay)
 	interrupt := make(chan interface{})
 	var runDone sync.WaitGroup
 	runDone.Add(1)
@@ -244,6 +255,16 @@ func VerifC16Manager() {
 
 	complete, abort := bm.AddRequest(ctx, hash, 700001, spy)
 	abortIt := nondetBool("abort-request")
+	if silent {
+		// let the manager start all its concurrent downloads before the request is aborted
+		abortIt = true
+		for k := 0; k <= concurrent; k++ {
+			verifSettle()
+			verifAdvanceClock(int64(6 * time.Millisecond)) // one request delay
+		}
+		verifSettle()
+		verifAssert(req.requests == concurrent, "concurrent-downloads-not-started")
+	}
 	if abortIt {
 		close(abort)
 	}
@@ -256,6 +277,16 @@ func VerifC16Manager() {
 		} else {
 			result = err
 		}
+	}
+	if silent {
+		// the request has ended while the manager keeps running: every download started for it
+		// is cancelled at its peer and leaves the list, without waiting for any timeout
+		verifSettle()
+		verifAssert(len(bm.downloaders) == 0, "downloads-still-running-after-the-request-ended")
+		for _, c := range req.cancellers {
+			verifAssert(c.cancels >= 1, "peer-never-asked-to-cancel-after-the-request-ended")
+		}
+		verifReach("all-cancelled")
 	}
 	// a second terminal signal must never come
 	extra := false
